@@ -166,6 +166,17 @@ fn crafted_programs() -> Vec<Prog> {
         src += " acc\n}\n";
         v.push(Prog { origin: format!("crafted-defs-{n}"), src, consts: vec![] });
     }
+    // large circuits (size-triggered behaviour of the builder: cache growth, eviction, reallocation)
+    v.push(Prog {
+        origin: "crafted-large-u64-products".into(),
+        src: "pub fn main(a: u64, b: u64, c: u64) -> u64 {\n let p = (a * b) ^ (b * c) ^ (a * c);\n let q = (p / (a | 1u64)) + (p % (b | 1u64));\n (p * q) ^ (q * a) ^ (q * b)\n}\n".into(),
+        consts: vec![],
+    });
+    v.push(Prog {
+        origin: "crafted-large-array-sum".into(),
+        src: "pub fn main(x: [u32; 20], k: u32) -> u32 {\n let mut s = k;\n for e in x { s = (s * e) ^ (s / (e | 1u32)); }\n s\n}\n".into(),
+        consts: vec![],
+    });
     // types whose size depends on what they refer to by name (history independence, see `siblings`)
     v.push(Prog {
         origin: "crafted-enum-of-named-types".into(),
